@@ -246,12 +246,25 @@ class Interp:
         if cheap:
             return None
         mv = self.st.model_value(v)
-        if mv is not None and z3.is_app(mv) and mv.decl().name() in self.TAGS:
+        tried = []
+        for _ in range(3):
+            if mv is None or not z3.is_app(mv) or mv.decl().name() not in self.TAGS:
+                break
             t = mv.decl().name()
             if self.st.valid(getattr(V, "is_" + t)(v)):
                 self.st.tags[v.get_id()] = t
                 self.st._tagkeep.append(v)
                 return t
+            tried.append(t)
+            # is there a model in which v has yet another constructor?  if not, no single tag is forced
+            excl = z3.And([z3.Not(getattr(V, "is_" + x)(v)) for x in tried])
+            if not self.st.feasible(excl):
+                break
+            self.st.pc.append(excl)
+            try:
+                mv = self.st.model_value(v)
+            finally:
+                self.st.pc.pop()
         return None
 
     def kind(self, v):
@@ -724,6 +737,8 @@ class Interp:
             # the sequence they iterate: `seq` is the entry-time sequence value)
             st.assume(z3.Implies(V.is_ref(x), V.id(x) <= entry["nalloc"]))
             src_it = self.lower(it)
+            if is_v(src_it) and self.tag(src_it, cheap=True) == "ref" and self.kind(src_it) == K_LIST:
+                st.list_read(src_it, i)
             if isinstance(src_it, self.models.HView) and src_it.kind in ("items", "values", "keys") and is_v(src_it.base):
                 # reading d[k] for the current key: instantiate table invariants for it
                 kcur = seq.at(i) if src_it.kind == "keys" else self.models.dict_parts(self, entry_dict_state(entry, st, src_it.base))[2].at(i)
@@ -742,7 +757,10 @@ class Interp:
                 pass
             ctx1 = LoopCtx(self, st, env, seq, i + 1, entry)
             for nm, f in _inv_list(spec.inv):
-                self.spec.oblige(self, f"{label}/step/{nm}", f(ctx1))
+                goal = f(ctx1)
+                parts = goal.children() if z3.is_and(goal) else [goal]
+                for k_, part in enumerate(parts):
+                    self.spec.oblige(self, f"{label}/step/{nm}" + (f"#{k_}" if len(parts) > 1 else ""), part)
             if spec.modifies_heap is False:
                 self.spec.oblige(self, f"{label}/step/heap-unchanged", frame_eq(entry["h"], st.h, entry["nalloc"]))
             elif spec.frame_except is not None:
@@ -1577,9 +1595,10 @@ def frame_eq(h1, h2, n0, except_refs=()):
             conj.append(z3.Select(a, r) == z3.Select(b, r))
     if not conj:
         return z3.BoolVal(True)
-    whole = [x for x in except_refs if not isinstance(x, tuple)]
+    preds = [x for x in except_refs if callable(x)]
+    whole = [x for x in except_refs if not isinstance(x, tuple) and not callable(x)]
     partial = [x for x in except_refs if isinstance(x, tuple)]
-    guard = [r <= n0] + [r != V.id(x) for x in whole]
+    guard = [r <= n0] + [r != V.id(x) for x in whole] + [z3.Not(p_(r)) for p_ in preds]
     if partial:
         conj = []
         for (n1, a), (n2, b) in zip(h1.components(), h2.components()):
@@ -1598,9 +1617,10 @@ def _framed_havoc(old, new, n0, allowed):
     """heap that agrees with `old` on every object existing at n0 except `allowed`, and with the havocked
     `new` elsewhere (defined by lambdas, so reads of framed objects reduce to the old contents)"""
     r = z3.Int("r!fh")
-    whole = [x for x in allowed if not isinstance(x, tuple)]
+    preds = [x for x in allowed if callable(x)]                  # predicate on the object id: members may change
+    whole = [x for x in allowed if not isinstance(x, tuple) and not callable(x)]
     partial = [x for x in allowed if isinstance(x, tuple)]      # (ref, [field names]) : only these fields may change
-    keep = z3.And([r <= n0] + [r != V.id(x) for x in whole])
+    keep = z3.And([r <= n0] + [r != V.id(x) for x in whole] + [z3.Not(p_(r)) for p_ in preds])
     names = set(old.fld) | set(new.fld)
     for n in names:
         old.field(n), new.field(n)
@@ -1609,11 +1629,17 @@ def _framed_havoc(old, new, n0, allowed):
     for a in Heap.ARR:
         k_ = existed if a in ("kind", "cls") else keep     # the kind/class of an object never changes
         setattr(h, a, z3.Lambda([r], z3.If(k_, z3.Select(getattr(old, a), r), z3.Select(getattr(new, a), r))))
-    for n in names:
-        kf = z3.And([keep] + [r != V.id(x) for (x, flds) in partial if n in flds])
-        h.fld[n] = z3.Lambda([r], z3.If(kf, z3.Select(old.fld[n], r), z3.Select(new.fld[n], r)))
+    def keep_fld(rr, n):
+        return z3.And([rr <= n0] + [rr != V.id(x) for x in whole] + [z3.Not(p_(rr)) for p_ in preds] +
+                      [rr != V.id(x) for (x, flds) in partial if n in flds])
+
+    def keep_has(rr, n):
         # attribute *presence* of a field-level framed object is kept (assignments do not remove attributes)
-        h.has[n] = z3.Lambda([r], z3.If(keep, z3.Select(old.has[n], r), z3.Select(new.has[n], r)))
+        return z3.And([rr <= n0] + [rr != V.id(x) for x in whole] + [z3.Not(p_(rr)) for p_ in preds])
+    for n in names:
+        h.fld[n] = z3.Lambda([r], z3.If(keep_fld(r, n), z3.Select(old.fld[n], r), z3.Select(new.fld[n], r)))
+        h.has[n] = z3.Lambda([r], z3.If(keep_has(r, n), z3.Select(old.has[n], r), z3.Select(new.has[n], r)))
+    h.framed = (old.copy(), keep_fld, keep_has, new)
     return h
 
 
